@@ -350,9 +350,14 @@ def ruleDateDOW(ts: datetime, date: Time, dow: Time) -> Time:
 # and assume the next date+time in the future
 @rule(predicate("isDOM"))
 def ruleLatentDOM(ts: datetime, dom: Time) -> Time:
-    dm = ts + relativedelta(day=dom.day)
-    if dm <= ts:
-        dm += relativedelta(months=1)
+    # relativedelta(day=N) silently clips N to the length of the month, so
+    # walk month by month until one has that day and lies in the future
+    first = ts + relativedelta(day=1)
+    for months in range(0, 4):
+        dm = first + relativedelta(months=months)
+        dm = dm + relativedelta(day=dom.day)
+        if dm.day == dom.day and dm > ts:
+            break
     return Time(year=dm.year, month=dm.month, day=dm.day)
 
 
